@@ -86,7 +86,9 @@ def post_vmfault(sess):
             ev = fresh_event(it, ctx, w, 'any')
             P = comp_pred(it, ctx, c, ev)
             eid = ev.fields['eventid'].t
-            ctx.oblige('C20/vmfault/nested.condition', P == z3.And(eid >= 0x1320008, eid <= 0x1320014))
+            tc = p.fields['trace_codes']
+            named = z3.And(z3.Select(tc.dom, eid), z3.Function('str.startswith.RealFaultAddress', z3.IntSort(), z3.BoolSort())(z3.Select(tc.val, eid)))
+            ctx.oblige('C20/vmfault/nested.condition', P == named)
         if has:
             ok = bool(comps)
             detail = ''
